@@ -63,6 +63,9 @@ def make_env(em):
         'C2': {},
         'G': copy.deepcopy(GLOBAL_CFG),
         'SO': em.Config({'type': 'stylesheet', 'cache': {}}),
+        # what an editor passes when wrapping an empty selection: falsy wrap text in a configuration that is reused
+        'TE': {'text': [], 'options': {'output.field': FIELD}},
+        'TS': {'text': '', 'options': {'output.field': FIELD}},
     }
 
 
@@ -123,6 +126,8 @@ OPS = [
     ('g_css', lambda em, e: em.expand('p10', {'type': 'stylesheet', 'cache': e['C2']}, e['G'])),
     ('m_doctype', lambda em, e: em.expand('!!!+tm', e['A'])),
     ('m_xsl', lambda em, e: em.expand('!!!+tm', {'syntax': 'xsl'})),
+    ('m_wrap_empty_list', lambda em, e: em.expand('ul>li*+a', e['TE'])),
+    ('m_wrap_empty_str', lambda em, e: em.expand('ul>li*+a', e['TS'])),
 ]
 OPNAMES = [o[0] for o in OPS]
 
